@@ -293,6 +293,9 @@ func c12AllCells() []c12Cell {
 // ---------------------------------------------------------------------------- running a cell
 
 type c12Step struct {
+	args    []string // the 17 arguments of the c12route line
+	force   string
+	scheme  string
 	line    string // model line
 	impl    string // canonical implementation answer
 	propOK  bool
@@ -464,10 +467,11 @@ func c12Request(c *Client, o *c12Origin, cell c12Cell, force string, h3 bool, tc
 	}
 	alpn := c12AlpnChars(o.offer.alpn)
 	sch := cell.scheme
-	step.line = fmt.Sprintf("c12route %s %s %s %s %s %s %s %s %s %s %s %s %s %s %s %s %s",
-		force, c12B(h3), c12B(cell.h2c), c12B(cell.custom == "dialtls" || cell.h2c), c12B(cell.custom == "handshake"), protos,
+	step.args = []string{force, c12B(h3), c12B(cell.h2c), c12B(cell.custom == "dialtls" || cell.h2c), c12B(cell.custom == "handshake"), protos,
 		sch, c12B(cell.upgrade), alpn, c12B(tcpAccept), c12B(o.offer.h3), c12B(tcell.accept()), c12B(o.offer.plainH2), customTok,
-		c12B(st.cachedH2), c12B(st.cachedH3), c12B(st.alt))
+		c12B(st.cachedH2), c12B(st.cachedH3), c12B(st.alt)}
+	step.force, step.scheme = force, sch
+	step.line = "c12route " + strings.Join(step.args, " ")
 	// ---- property oracle, independent of the model
 	complain := func(f string, a ...interface{}) {
 		step.propOK = false
@@ -536,16 +540,53 @@ func c12Request(c *Client, o *c12Origin, cell c12Cell, force string, h3 bool, tc
 			complain("HTTP/%s forced but the origin received the request over %s", force, sn.proto)
 		}
 	}
-	// ---- finding class of this step (only used when something is off)
-	switch {
-	case st.alt && h3 && (force == "1" || force == "2"):
-		step.class = "altsvc-overrides-forced-version"
-	case st.alt && h3 && cell.scheme == "http":
-		step.class = "altsvc-breaks-plain-http"
-	case cell.scheme == "https" && (force == "3" || (st.alt && h3)):
-		step.class = "h3-tls-shadow"
-	}
 	return step
+}
+
+// c12Classify gives a step the class of a KNOWN finding only when the implementation's answer is
+// exactly what the model of that known defect predicts (and differs from the repaired model):
+//   shadow   = Dispatch.route with quicAccept := false (the HTTP/3 stack dials with an empty
+//              tls.Config, which accepts none of the private-CA origins)       -> h3-tls-shadow
+//   altorder = Dispatch.routeUnpatched (Alt-Svc shortcut before the forced switch, any scheme),
+//              with or without the shadow       -> altsvc-overrides-forced-version / altsvc-breaks-plain-http
+// Any other deviation stays unclassified and alarms.
+func c12Classify(steps []*c12Step) error {
+	var lines []string
+	for _, st := range steps {
+		shadow := append([]string(nil), st.args...)
+		shadow[11] = "0"
+		lines = append(lines,
+			"c12route "+strings.Join(st.args, " "),
+			"c12route "+strings.Join(shadow, " "),
+			"c12routeu "+strings.Join(st.args, " "),
+			"c12routeu "+strings.Join(shadow, " "))
+	}
+	if len(lines) == 0 {
+		return nil
+	}
+	ans, err := verifh.RunModel(lines)
+	if err != nil {
+		return err
+	}
+	for i, st := range steps {
+		repaired, shadow, altorder, both := ans[4*i], ans[4*i+1], ans[4*i+2], ans[4*i+3]
+		if st.class != "" || st.impl == repaired {
+			continue
+		}
+		altClass := ""
+		if st.force == "1" || st.force == "2" {
+			altClass = "altsvc-overrides-forced-version"
+		} else if st.scheme == "http" {
+			altClass = "altsvc-breaks-plain-http"
+		}
+		switch {
+		case st.impl == shadow:
+			st.class = "h3-tls-shadow"
+		case altClass != "" && (st.impl == altorder || st.impl == both):
+			st.class = altClass
+		}
+	}
+	return nil
 }
 
 // c12WaitAlt waits until the client holds a usable Alt-Svc entry for the URL (pending entry
@@ -723,7 +764,16 @@ func c12RunParallel(w *c12World, cells []c12Cell, dir string, workers int) [][]c
 		go func() {
 			defer wg.Done()
 			for i := range ch {
-				out[i] = c12RunCell(w, cells[i], dir)
+				done := make(chan []c12Step, 1)
+				go func(i int) { done <- c12RunCell(w, cells[i], dir) }(i)
+				select {
+				case r := <-done:
+					out[i] = r
+				case <-time.After(30 * time.Second):
+					// every request carries a deadline of at most 4 s: the client is wedged
+					out[i] = []c12Step{{args: make([]string, 17), impl: "hang", propOK: false, why: "the request did not return within 30 s although its context expired after 4 s",
+						human: cells[i].String() + " ; HUNG", line: "c12route hang"}}
+				}
 			}
 		}()
 	}
@@ -754,6 +804,15 @@ func TestVerif_C12_e2e(t *testing.T) {
 	}
 	c12Count(s, fmt.Sprintf("cells-total-%d", len(all)))
 	res := c12RunParallel(w, cells, dir, 8)
+	var allSteps []*c12Step
+	for i := range res {
+		for j := range res[i] {
+			allSteps = append(allSteps, &res[i][j])
+		}
+	}
+	if err := c12Classify(allSteps); err != nil {
+		t.Fatalf("infrastructure: %v", err)
+	}
 	for i, steps := range res {
 		cell := cells[i]
 		for _, d := range cell.dims() {
@@ -848,8 +907,10 @@ func TestVerif_C12_uniform(t *testing.T) {
 		tcpOK := same(obs[0], obs[1]) && obs[0].accept == want
 		allOK := tcpOK && same(obs[1], obs[2])
 		class := ""
-		if tcpOK && !allOK {
-			class = "h3-tls-shadow" // only the HTTP/3 stack deviates
+		if tcpOK && want == "accept" && obs[2].impl == "err:tls" {
+			// exactly the known shadowing: the HTTP/3 stack alone rejects, with a certificate error,
+			// what the settings accept (it dials with an empty tls.Config)
+			class = "h3-tls-shadow"
 		}
 		c12Count(s, "tls="+c.tc.name)
 		c12Count(s, "expected:"+want)
@@ -882,7 +943,12 @@ func TestVerif_C12_seq(t *testing.T) {
 	dir := t.TempDir()
 	c12WriteCAFiles(dir)
 	var noDials atomic.Int64
+	var pending []*c12Step
 	record := func(st c12Step) {
+		x := st
+		pending = append(pending, &x)
+	}
+	flush := func(st c12Step) {
 		c12Count(s, "impl:"+st.impl)
 		human := st.human
 		if st.why != "" {
@@ -985,9 +1051,11 @@ func TestVerif_C12_seq(t *testing.T) {
 			cell := c12Cell{force: "-", offer: "all", tls: tc, how: "helpers-string", kind: "fresh", custom: "none", scheme: "https"}
 			st := c12Request(c, o, cell, "-", false, tc, "12", &c12CustomRec{}, c12ReqState{}, fmt.Sprintf("/q%d/d", id), &noDials)
 			st.human = "seq(d) C().EnableForceHTTP3().DisableHTTP3() ; request"
-			st.class = "forced-h3-after-disable-panics"
-			if st.panicTx != "" {
+			if st.impl == "crash" {
+				// exactly what the un-patched DisableHTTP3 predicts (Props.C12.unpatched_disable_breaks_wf)
+				st.class = "forced-h3-after-disable-panics"
 				s.Case(st.line, st.impl, false, st.class, true, st.human+" ; ORACLE: "+st.why)
+				c12Count(s, "impl:"+st.impl)
 			} else {
 				record(st)
 			}
@@ -1019,6 +1087,12 @@ func TestVerif_C12_seq(t *testing.T) {
 				fmt.Sprintf("%s without any TLS handshake at the origin (EnableH2C replaces DialTLSContext with a clear-text dialer for every https request)", got))
 			c.GetTransport().CloseIdleConnections()
 		}
+	}
+	if err := c12Classify(pending); err != nil {
+		t.Fatalf("infrastructure: %v", err)
+	}
+	for _, st := range pending {
+		flush(*st)
 	}
 	for _, must := range []string{"a:force1", "a:force2", "b:plain-altsvc", "c:h2c-https", "d:force3-disable", "alt-entry-ready"} {
 		if c12Hist[s][must] == 0 {
